@@ -242,6 +242,20 @@ func classOfType(t types.Type) string {
 	return ClsOther
 }
 
+// classIs answers whether an error of class cls has the concrete type t.  The classes name the
+// library's own error types; everything else is "other": an unclassified error may or may not be
+// of a given unclassified type (a failed request is not necessarily a minio.ErrorResponse).
+func classIs(cls string, t types.Type) Boolv {
+	if cls == ClsNil {
+		return BFalse
+	}
+	ct := classOfType(t)
+	if cls == ClsOther && ct == ClsOther {
+		return BUnk
+	}
+	return b2(cls == ct)
+}
+
 func isPointerLike(t types.Type) bool {
 	switch t.Underlying().(type) {
 	case *types.Pointer, *types.Slice, *types.Map, *types.Chan, *types.Signature, *types.Interface:
@@ -586,10 +600,8 @@ func Explore(fn *ssa.Function, b *ssa.BasicBlock, idx int, pred *ssa.BasicBlock,
 			if x.CommaOk && !types.IsInterface(x.AssertedType) {
 				delete(st.V, tkey{x, 1})
 				if subj := st.Eval(x.X); subj.Class != "" {
-					if subj.Class == ClsNil {
-						st.V[tkey{x, 1}] = Val{B: BFalse}
-					} else {
-						st.V[tkey{x, 1}] = Val{B: b2(subj.Class == classOfType(x.AssertedType))}
+					if bv := classIs(subj.Class, x.AssertedType); bv != BUnk {
+						st.V[tkey{x, 1}] = Val{B: bv}
 					}
 				}
 			}
@@ -1058,10 +1070,7 @@ func (st *State) decide(cond ssa.Value) Boolv {
 		if ta, ok := c.Tuple.(*ssa.TypeAssert); ok && ta.CommaOk && c.Index == 1 {
 			subj := st.Eval(ta.X)
 			if subj.Class != "" && !types.IsInterface(ta.AssertedType) {
-				if subj.Class == ClsNil {
-					return BFalse
-				}
-				return b2(subj.Class == classOfType(ta.AssertedType))
+				return classIs(subj.Class, ta.AssertedType)
 			}
 		}
 	case *ssa.Call:
@@ -1079,10 +1088,7 @@ func (st *State) decide(cond ssa.Value) Boolv {
 					if strings.HasPrefix(subj.Sym, "wrapped:") {
 						cls = strings.TrimPrefix(subj.Sym, "wrapped:")
 					}
-					if cls == ClsNil {
-						return BFalse
-					}
-					return b2(cls == classOfType(p.Elem()))
+					return classIs(cls, p.Elem())
 				}
 			}
 		}
